@@ -2,7 +2,7 @@ use super::{
     Namespace, TryFromNode,
     doc::{ComponentKind, RustDocument},
     node::collect_namespaces_on_node,
-    structures::{element::ElementType, xml_name_to_rust_name},
+    structures::{as_identifier, element::ElementType, xml_name_to_rust_name},
 };
 use crate::{
     error::{WriterError, WriterResult},
@@ -84,7 +84,7 @@ impl<'n> TryFromNode<'n> for Field {
 
         if let Some(ref_name) = node.attribute("ref") {
             let (xml_name, namespace_ref) = split_type(ref_name);
-            let rust_name = rename_keywords(&to_snake_case(xml_name)).to_string();
+            let rust_name = rename_keywords(&as_identifier(&to_snake_case(xml_name))).to_string();
 
             if ref_name.starts_with("xml") {
                 /* This is a reference to an XML type */
@@ -148,7 +148,7 @@ impl<'n> TryFromNode<'n> for Field {
             .ok_or_else(|| WriterError::attribute_missing(&node, "name"))?
             .to_string();
 
-        let rust_name = rename_keywords(&to_snake_case(&xml_name)).to_string();
+        let rust_name = rename_keywords(&as_identifier(&to_snake_case(&xml_name))).to_string();
 
         let rust_type = node
             .attribute("type")
@@ -331,7 +331,7 @@ pub fn as_rust_type(node_type: &str, doc: &RustDocument) -> RustFieldType {
 }
 
 pub fn as_field_name(xml_name: &str) -> String {
-    let field_name = to_snake_case(xml_name);
+    let field_name = as_identifier(&to_snake_case(xml_name));
     rename_keywords(&field_name).to_string()
 }
 
